@@ -32,6 +32,8 @@ pub struct SemCfg {
     pub colliding: bool,
     /// computed v-model arguments (D10's shape) may be generated
     pub vmodel_dynamic_arg: bool,
+    /// the module is TSX: v-model targets may carry TS-only wrappers
+    pub tsx: bool,
 }
 
 impl Default for SemCfg {
@@ -56,6 +58,7 @@ impl Default for SemCfg {
             children: true,
             colliding: false,
             vmodel_dynamic_arg: true,
+            tsx: false,
         }
     }
 }
@@ -1024,10 +1027,21 @@ impl<'a, 'b> Sem<'a, 'b> {
                 .choose(&["m1", "m2", "mo.p", "mo[mk]", "marr[0]", "mo.deep.q", "(m1)", "(mo.p)", "((m2))"])
                 .to_string()
         };
+        let target = if self.cfg.tsx && !target.starts_with('$') && self.c.chance(1, 2) {
+            // `x!`, `x as T`, `x satisfies T` are still assignable targets
+            self.label("vmodel-target-ts-wrapped");
+            match self.c.pick(3) {
+                0 => format!("{target}!"),
+                1 => format!("({target} as any)"),
+                _ => format!("({target} satisfies any)"),
+            }
+        } else {
+            target
+        };
         if target.starts_with('(') {
             self.label("vmodel-target-parenthesised");
         }
-        let base = target.trim_start_matches('(').split(['.', '[', ')']).next().unwrap().to_string();
+        let base = target.trim_start_matches('(').split(['.', '[', ')', '!', ' ']).next().unwrap().to_string();
         if !self.vm_targets.contains(&base) {
             self.vm_targets.push(base);
         }
@@ -1202,7 +1216,12 @@ impl<'a, 'b> Sem<'a, 'b> {
                         // spread argument must be iterable
                         let k = self.next_log();
                         self.n_exprs += 1;
-                        Ex::src(format!("[t({k})]"), Cat::ArrLit)
+                        if self.c.bool() {
+                            // a call as the spread's operand (must not be taken for a call child)
+                            Ex::src(format!("ta({k})"), Cat::Other)
+                        } else {
+                            Ex::src(format!("[t({k})]"), Cat::ArrLit)
+                        }
                     } else {
                         Ex::src(
                             self.c.choose(&["xs1", "[x, y]", "[]", "fxs()", "(b1 ? xs1 : [])", "fxs()"]),
